@@ -132,7 +132,9 @@ func adversarial(r *Rng) string {
 		"(1.5)d6", "2d(1.5)", "('a')a10", "b1.5", "p'x'", "(-2)d6", "3d6k(-1)", "3d6q0", "1a1", "10c1", "b(-1)", "p(99999)",
 		"f+f+f", "3a11", "3c11",
 		"x = {}; x.y.z", "null.x", "1.x", "'s'.len()", "[1,2][5]", "'abc'[10]", "''[0]", "'abc'[-9]", "[1,2,3][2:1]",
-		"a=[1]; a.push(a); a", "o={'k':1}; o.self=o; o", "[1,2,3].kh('x')", "[1,2,3].kl(1.5)",
+		"a=[1]; a.push(a); a", "o={'k':1}; o.self=o; o", "a=[1]; a.push(a); a.push(a); a", "m={'k':1}; m.x=m; m.y=m; m", "m={'k':1}; a=[m,m]; m.x=a; m.y=a; a",
+		"a=[1]; a.push(a); b2=[1]; b2.push(b2); a == b2", "a=[1]; a.push(a); a == a", "m={'k':1}; m.x=m; n2={'k':1}; n2.x=n2; m == n2", "a=[1]; a.push(a); `{a}`", "a=[1]; a.push(a); repr(a)", "a=[1]; a.push(a); [a,a] == [a,a]",
+		"&cc = 1; &cc.me = cc; cc", "a=[1]; a.push(a); a.sum()", "a=[1]; a.push(a); a + a", "a=[1]; a.push(a); a * 3", "[1,2,3].kh('x')", "[1,2,3].kl(1.5)",
 		"dct = {}; dct.k = dct['j'] = []", "d || [1,2]", "this.x = 5; this.x", "5\n{'a':1",
 		"load('x')", "load(1)", "store('y', 2); y", "store(1,2)", "dir(1)", "dir([])", "abs('x')", "toInt('zz')", "toInt([])", "floor('x')",
 		"1/0", "1%0", "1.0/0", "2^9999", "0^(-1)", "(-8)^0.5", "1 ? ", "? 1", "`{%", "`{% %}`", "`{}`", "'\\", "\"\\x",
